@@ -167,6 +167,33 @@ bool prop_C11(Tape& t, Report& rep)
         if (!c11_exhaustive(rep)) return false;
         rep.sample("c11:exhaustive", "all 64 squares x all subsets of the relevant bishop/rook blocker masks (107,648 entries, each also OR-ed with all bits outside the mask); KNIGHT_MASK, KING_MASK, pawn_attacks (both colours), pseudoattacks, LINES and FULL_LINES for all 64(x64) entries");
     }
+    // The tables are global mutable arrays: they must still be exact after the engine has been used.  Every case runs a small
+    // workload (evaluation, move generation, check tests, perft, SAN) on a generated position, and every 64th case the complete
+    // enumeration is repeated.
+    {
+        static PositionScorer* scorer = new PositionScorer();
+        static uint64_t ncase = 0;
+        gen::Root r = gen::gen_root(t, nullptr, 40);
+        Position pos = br::from_fen(r.cur);
+        if (!ref::insufficient_material(r.cur)) scorer->score(pos);
+        br::EMoves em = br::engine_moves(pos);
+        for (size_t k = 0; k < em.raw.size() && k < 8; ++k)
+        {
+            pos.move_gives_check(em.raw[k]);
+            pos.san(em.raw[k]);
+        }
+        pos.is_in_check(pos.color());
+        engine::perft(pos, 2);
+        rep.cls("c11:workload_positions");
+        if ((++ncase & 63) == 0)
+        {
+            Report scratch;  // counts of the repeated enumeration are not added to the evidence again
+            if (!c11_exhaustive(scratch))
+                return rep.fail(scratch.failure_sig + ":after_engine_activity", scratch.failure + "\n (the table was exact at start-up and is wrong after the engine evaluated / generated moves for " +
+                                                                                std::to_string(ncase) + " positions; last: " + ref::to_fen(r.cur) + ")");
+            rep.cls("c11:re_enumerations_after_engine_activity");
+        }
+    }
     // random full 64-bit occupancies (dense, medium, sparse) and random pawn sets
     for (int i = 0; i < 64; ++i)
     {
